@@ -63,6 +63,12 @@ class RecLogger:
 
         exc = sys.exc_info()[1]
         self._add("exception", message + " :: " + repr(exc), args)
+        import os
+
+        if os.environ.get("HCSIM_TRACE"):
+            import traceback
+
+            traceback.print_exc()
 
     async def log(self, level: int, message: str, *args: Any, **kwargs: Any) -> None:
         self._add("log%d" % level, message, args)
